@@ -134,7 +134,9 @@ def clone(n):
 
 def random_tree(rng, budget, depth=0):
     ns = rng.choice([None, None, P, Q])
-    n = N(ns, rng.choice(["a", "b", "c-d", "é", "x.y"]))
+    n = N(ns, rng.choice(["a", "b", "c-d", "é", "x.y", "a", "b", "AnyElement", "DerivedElement"]))  # (names of the library's own generic classes are ordinary names)
+    if depth == 0 and rng.random() < 0.12:
+        n = N(None, rng.choice(["AnyElement", "DerivedElement"]))  # top-level fragments are looked up in the type index by name
     at = []
     if rng.random() < 0.4:
         at.append((None, "k", rng.choice(["v", "", "a b", "1"])))
